@@ -34,6 +34,7 @@ class Contract:
         self.loop_modifies = {int(k): v for k, v in opts.get("loop_modifies", {}).items()}
         self.inline = opts.get("inline", False)
         self.effects = opts.get("effects", [])
+        self.effects_ok = opts.get("effects_ok", [])
         self.defaults = opts.get("defaults", {})
         self.pure = opts.get("pure", False)
         self.cases = opts.get("cases")
